@@ -263,14 +263,26 @@ func cmdWorker(args []string) int {
 			}
 			sr.Violations = append(sr.Violations, &ReplayFile{Property: *prop, Seed: *seed, Tier: *tier, Case: i, Sig: v.Sig, Message: v.Msg, Config: res.Config, Trace: tr})
 		}
+		if len(res.Violations) > 0 {
+			// keep what was found even if this process is later killed by the watchdog
+			_ = writeShard(*dir, sr)
+		}
 	}
 	sr.Done = true
-	b, _ := json.Marshal(sr)
-	if err := os.WriteFile(filepath.Join(*dir, fmt.Sprintf("shard-%d.json", *shard)), b, 0o644); err != nil {
+	if err := writeShard(*dir, sr); err != nil {
 		fmt.Fprintln(os.Stderr, "cannot write shard result:", err)
 		return 2
 	}
 	return 0
+}
+
+func writeShard(dir string, sr *ShardResult) error {
+	b, _ := json.Marshal(sr)
+	tmp := filepath.Join(dir, fmt.Sprintf("shard-%d.json.tmp", sr.Shard))
+	if err := os.WriteFile(tmp, b, 0o644); err != nil {
+		return err
+	}
+	return os.Rename(tmp, filepath.Join(dir, fmt.Sprintf("shard-%d.json", sr.Shard)))
 }
 
 func writeReplay(rf *ReplayFile) string {
@@ -383,6 +395,10 @@ func cmdRun(args []string) int {
 		var sr ShardResult
 		if err == nil {
 			err = json.Unmarshal(b, &sr)
+		}
+		if err == nil && !sr.Done {
+			// partial result of a worker that did not finish: keep the violations it had already found
+			violations = append(violations, sr.Violations...)
 		}
 		if err != nil || !sr.Done {
 			// the worker died: find the last case header in its log
